@@ -27,6 +27,7 @@ type Engine struct {
 	ScheduleAll      bool
 	Thorough         bool
 	FallbackSolver   string
+	CrossEvery       int // re-decide every n-th unsat assertion with the second solver (0 = off)
 	buildMu          sync.Mutex
 	built            map[*ssa.Package]bool
 	builtFast        sync.Map
